@@ -35,7 +35,11 @@ func TestVerifC19KS(t *testing.T) {
 		}
 		r := vCaseRand(seed, i)
 		if i%3 == 2 {
-			c19KsGetCase(t, cs, i, r)
+			if i%2 == 0 {
+				c19KsPairCase(t, cs, i, r)
+			} else {
+				c19KsGetCase(t, cs, i, r)
+			}
 			continue
 		}
 		remote := c19Remote(r)
@@ -47,11 +51,9 @@ func TestVerifC19KS(t *testing.T) {
 		if err == nil {
 			o = "(Some " + gStr(kc.Arvados.ApiToken) + ")"
 		}
-		if base.Arvados.ApiToken != "xxx" {
-			t.Fatalf("shared client's token was modified")
-		}
+		sharedAfter := base.Arvados.ApiToken // internal; its effect is observed by the overlapping-requests cases
 		term := fmt.Sprintf("CRemote %s %s %s", gStr(tok), gStr(remote), o)
-		desc := map[string]interface{}{"index": i, "kind": "keepstore-remote-client", "token": tok, "remote": remote, "error": fmt.Sprint(err), "token_out": o}
+		desc := map[string]interface{}{"index": i, "kind": "keepstore-remote-client", "token": tok, "remote": remote, "error": fmt.Sprint(err), "token_out": o, "cached_client_token_after": sharedAfter}
 		cs.Add(i, term, desc, true, "shape="+kind, fmt.Sprintf("remote-client-error=%v", err != nil))
 	}
 	cs.Write()
@@ -97,10 +99,104 @@ func c19KsGetCase(t *testing.T, cs *vCases, i int, r *vRand) {
 		parts := c19Parts(s)
 		sentTerms = append(sentTerms, fmt.Sprintf("(%s, %s, %s)", gStr(remote), gStr(strings.Join(s.Header["Authorization"], "\n")), c19PartsTerm(parts)))
 	}
-	if base.Arvados.ApiToken != "xxx" {
-		t.Fatalf("shared client's token was modified")
-	}
 	term := fmt.Sprintf("CKsGet %s %s %s", gStr(tok), gStr(remote), gList(sentTerms))
 	desc := map[string]interface{}{"index": i, "kind": "keepstore-remote-get", "token": tok, "remote": remote, "locator": locator, "response_code": rw.Code, "sent": sent}
 	cs.Add(i, term, desc, true, "get-shape="+kind, fmt.Sprintf("get-sent=%d", len(sent)), fmt.Sprintf("get-response=%d", rw.Code))
+}
+
+func c19KsToken(r *vRand, remote string) (string, string) {
+	tok, kind := c19Token(r, remote)
+	switch r.Intn(8) {
+	case 0, 1, 2:
+		tok, _ = c19V2(r, remote)
+		kind = "v2-long-secret"
+	case 3, 4:
+		tok, kind = c19Str(r, c19Alnum, 41+r.Intn(20)), "legacy"
+	case 5:
+		tok, kind = "v2/ccccc-gj3su-"+c19Str(r, c19Alnum, 15)+"/"+c19Str(r, "0123456789abcdef", 40), "v2-salted-for-third-cluster"
+	}
+	if strings.ContainsAny(tok, "\r\n") || strings.TrimLeft(tok, " \t\f\v") != tok || tok == "" {
+		tok, kind = c19Str(r, c19Alnum, 41+r.Intn(20)), "legacy"
+	}
+	return tok, kind
+}
+
+// Two overlapping requests through one remoteProxy (one cached keep client per remote), interleaved
+// deterministically: A's first attempt reaches the remote keep service; before it is answered (503), B's whole
+// request runs on the same goroutine; then A goes on to the second keep service.
+func c19KsPairCase(t *testing.T, cs *vCases, i int, r *vRand) {
+	remote := []string{"bbbbb", "zzzzz"}[r.Intn(2)]
+	tokA, kindA := c19KsToken(r, remote)
+	if r.Bool() {
+		tokA, _ = c19V2(r, remote)
+		kindA = "v2-long-secret"
+	}
+	tokB, kindB := c19KsToken(r, remote)
+	cluster := &arvados.Cluster{ClusterID: "aaaaa", RemoteClusters: map[string]arvados.RemoteCluster{remote: {Host: "r" + remote + ".remote.example"}}}
+	loc := func() string {
+		return c19Str(r, "0123456789abcdef", 32) + "+" + fmt.Sprint(1+r.Intn(1000)) + "+R" + remote + "-" + c19Str(r, "0123456789abcdef", 40) + "@" + c19Str(r, "0123456789abcdef", 8)
+	}
+	locA, locB := loc(), loc()
+	mkreq := func(locator, tok string, scheme string) *http.Request {
+		req := httptest.NewRequest("GET", "http://keep.local.example/"+locator, nil)
+		req.Header["Authorization"] = []string{scheme + tok}
+		return req
+	}
+	schemeA, schemeB := []string{"Bearer ", "OAuth2 "}[r.Intn(2)], []string{"Bearer ", "OAuth2 "}[r.Intn(2)]
+	var rp *remoteProxy
+	rec := &c19Recorder{tag: "A"}
+	rwB := httptest.NewRecorder()
+	ranB := false
+	rec.respond = func(req *http.Request, body string) (int, string) {
+		if !ranB {
+			ranB = true
+			rec.mu.Lock()
+			rec.tag = "B"
+			rec.mu.Unlock()
+			rp.Get(context.Background(), rwB, mkreq(locB, tokB, schemeB), cluster, nil)
+			rec.mu.Lock()
+			rec.tag = "A"
+			rec.mu.Unlock()
+			return 503, "busy"
+		}
+		return 404, "not found"
+	}
+	base := &keepclient.KeepClient{Arvados: &arvadosclient.ArvadosClient{ApiToken: "xxx"}, HTTPClient: c19KsClient{rec}}
+	roots := map[string]string{remote + "-bi6l4-000000000000000": "http://keep0.r" + remote + ".remote.example", remote + "-bi6l4-000000000000001": "http://keep1.r" + remote + ".remote.example"}
+	base.SetServiceRoots(roots, roots, nil)
+	rp = &remoteProxy{clients: map[string]*keepclient.KeepClient{remote: base}}
+	rwA := httptest.NewRecorder()
+	rp.Get(context.Background(), rwA, mkreq(locA, tokA, schemeA), cluster, nil)
+	if !ranB { // A sent nothing (its token cannot be salted): B runs after it
+		ranB = true
+		rec.mu.Lock()
+		rec.tag = "B"
+		rec.mu.Unlock()
+		rp.Get(context.Background(), rwB, mkreq(locB, tokB, schemeB), cluster, nil)
+	}
+	rec.mu.Lock()
+	inOrder := append([]c19Sent(nil), rec.sent...)
+	rec.mu.Unlock()
+	var termsA, termsB []string
+	for _, s := range rec.take() {
+		if s.Header.Get("X-Request-Id") != "" {
+			s.Header.Set("X-Request-Id", "req-generated") // random
+		}
+		term := fmt.Sprintf("(%s, %s, %s)", gStr(remote), gStr(strings.Join(s.Header["Authorization"], "\n")), c19PartsTerm(c19Parts(s)))
+		if s.Tag == "A" {
+			termsA = append(termsA, term)
+		} else {
+			termsB = append(termsB, term)
+		}
+	}
+	var order []string
+	for _, s := range inOrder {
+		order = append(order, s.Tag+" "+s.Host+" "+strings.Join(s.Header["Authorization"], ","))
+	}
+	term := fmt.Sprintf("CKsPair %s %s %s %s %s", gStr(tokA), gStr(tokB), gStr(remote), gList(termsA), gList(termsB))
+	desc := map[string]interface{}{"index": i, "kind": "keepstore-remote-get, two overlapping requests (B runs while A's first attempt is at the remote)",
+		"token_a": tokA, "token_b": tokB, "remote": remote, "locator_a": locA, "locator_b": locB, "response_code_a": rwA.Code, "response_code_b": rwB.Code,
+		"requests_in_order": order}
+	cs.Add(i, term, desc, true, "pair-shape-a="+kindA, "pair-shape-b="+kindB, fmt.Sprintf("pair-sent=%d+%d", len(termsA), len(termsB)),
+		fmt.Sprintf("pair-response=%d/%d", rwA.Code, rwB.Code))
 }
